@@ -49,6 +49,9 @@ func (p c06) Run(c *core.Ctx) {
 func runModelCase(c *core.Ctx, g *world.G, holders []any, orders int, strict bool, classify func(r *world.Run, ps []problem, exp world.Expect) string, more ...any) {
 	var nontrivial []func(exp world.Expect) bool
 	var providers []any
+	// modelView rewrites the scenario's tags to what the reference model should assume (e.g. after a user
+	// post-processor changed arguments at run time) and returns the undo
+	var modelView func(sc *world.Scenario) func()
 	for _, m := range more {
 		switch x := m.(type) {
 		case func(exp world.Expect) bool:
@@ -57,6 +60,8 @@ func runModelCase(c *core.Ctx, g *world.G, holders []any, orders int, strict boo
 			}
 		case []any:
 			providers = x
+		case func(sc *world.Scenario) func():
+			modelView = x
 		}
 	}
 	sc := g.Sc
@@ -75,7 +80,12 @@ func runModelCase(c *core.Ctx, g *world.G, holders []any, orders int, strict boo
 		r := world.Start(sc, world.Options{Extra: append(append([]any{}, holders...), providers...)})
 		c.Count("starts", 1)
 		c.Count("outcome_"+r.Outcome(), 1)
+		undo := func() {}
+		if modelView != nil {
+			undo = modelView(sc)
+		}
 		ps, exp := evalAgainstModel(r, strict, holders...)
+		undo()
 		multi, pts := 0, 0
 		for _, pr := range exp.Points {
 			pts++
